@@ -1761,6 +1761,14 @@ class BaseProject(object, metaclass=ABCMeta):
                 if x.parent_workplace is not None
                 else None
             )
+            x.input_workplace_list = [
+                self.organization.get_workplace_list(ID=ID)[0]
+                for ID in x.input_workplace_list
+            ]
+            x.output_workplace_list = [
+                self.organization.get_workplace_list(ID=ID)[0]
+                for ID in x.output_workplace_list
+            ]
             x.placed_component_list = [
                 self.product.get_component_list(ID=ID)[0]
                 for ID in x.placed_component_list
